@@ -359,6 +359,15 @@ class SetVal:
         for k, y in enumerate(self.items):
             if y is x:
                 return k
+            if (type(x) is Instance and type(y) is Instance and x.cls is y.cls and x.cls.is_dataclass and x.cls.dc_eq
+                    and x.cls.dc_frozen and x.cls.lookup("__eq__") is MISSING and x.cls.lookup("__hash__") is MISSING):
+                # frozen dataclass with eq: hashed and compared by field values
+                same = _dc_same(x, y)
+                if same is None:
+                    raise Unsupported("set membership of dataclass instances whose fields are not concretely comparable")
+                if same:
+                    return k
+                continue
             try:
                 if not sym.is_sym(x) and not sym.is_sym(y) and type(x) is type(y) and x == y:
                     return k
@@ -383,6 +392,32 @@ class SetVal:
 
     def __repr__(self):
         return "{" + ", ".join(map(repr, self.items)) + "}"
+
+
+_PLAIN = (str, int, float, bool, bytes, type(None))
+
+
+def _dc_same(x, y):
+    """Field-wise equality of two instances of one dataclass: True / False / None (not decidable here)."""
+    unknown = False
+    for name, _, _ in all_dc_fields(x.cls):
+        a, b = x.attrs.get(name, MISSING), y.attrs.get(name, MISSING)
+        if a is b:
+            continue
+        if isinstance(a, _PLAIN) and isinstance(b, _PLAIN):
+            if a != b:
+                return False
+            continue
+        if isinstance(a, EnumMember) and isinstance(b, EnumMember):
+            return False  # distinct members (identity differs)
+        unknown = True
+    return None if unknown else True
+
+
+def unhashable_dataclass(x):
+    """A dataclass with eq=True that is not frozen sets __hash__ to None: instances cannot enter a set."""
+    return (type(x) is Instance and x.cls.is_dataclass and x.cls.dc_eq and not x.cls.dc_frozen
+            and x.cls.lookup("__hash__") is MISSING and not getattr(x.cls, "dc_unsafe_hash", False))
 
 
 class Opaque:
